@@ -18,24 +18,3 @@ impl<'a> Context<'a> {
 }
 pub enum Poll<T> { Ready(T), Pending }
 
-// the waker list: the only operations that empty it are `drain(..)` and `mem::take`, whose results go to `wake`
-#[verifier::external_body]
-#[verifier::accept_recursive_types(T)]
-pub struct Vec<T> { p: std::marker::PhantomData<T> }
-impl<T> View for Vec<T> { type V = Seq<T>; uninterp spec fn view(&self) -> Seq<T>; }
-#[verifier::external_body]
-#[verifier::accept_recursive_types(T)]
-pub struct Drain<T> { p: std::marker::PhantomData<T> }
-impl<T> View for Drain<T> { type V = Seq<T>; uninterp spec fn view(&self) -> Seq<T>; }
-impl<T> Vec<T> {
-    #[verifier::external_body]
-    pub fn new() -> (r: Self) ensures r@.len() == 0 { unimplemented!() }
-    #[verifier::external_body]
-    pub fn push(&mut self, v: T) ensures final(self)@ == old(self)@.push(v) { unimplemented!() }
-    #[verifier::external_body]
-    pub fn drain(&mut self, r: std::ops::RangeFull) -> (d: Drain<T>) ensures d@ == old(self)@, final(self)@.len() == 0 { unimplemented!() }
-}
-impl<T> Default for Vec<T> {
-    #[verifier::external_body]
-    fn default() -> (r: Self) ensures r@.len() == 0 { unimplemented!() }
-}
